@@ -260,8 +260,6 @@ Print Assumptions C11_solve_dispatch.
 
 (* the hypotheses are satisfiable and the binary64 instance of the model runs: Sod's tube (gamma = 2) yields a star
    state, 0.1 < Pstar < 1, ustar > 0, residual below 1e-7, and the samples left/right/inside are as expected *)
-Theorem C11_model_runs_sod :
-  ((st_code _ sod =? 2)%Z || (st_code _ sod =? 3)%Z = true) /\
-  (PrimFloat.ltb 0x1.999999999999ap-4%float (st_P _ sod) && PrimFloat.ltb (st_P _ sod) 1%float && PrimFloat.ltb 0%float (st_u _ sod) = true).
-Proof. split; [exact sod_star_found | exact sod_star_pressure_between]. Qed.
+Theorem C11_model_runs_sod : sod_checks = true.
+Proof. exact sod_checks_true. Qed.
 Print Assumptions C11_model_runs_sod.
